@@ -3,6 +3,7 @@ import RsslVerif.Lemmas.FmtParseTables
 import RsslVerif.Lemmas.RoundtripThm
 import RsslVerif.Lemmas.RoundtripFull7
 import RsslVerif.Lemmas.StmtRT4
+import RsslVerif.Lemmas.LiteralText
 /-!
 # C09 — printing a syntax tree and parsing it back are inverse (expression level)
 
@@ -548,5 +549,80 @@ example : ∃ fuel, parseStmt ["int", "vector", "S"] fuel (toks (fmtStmt sampleS
     .ok sampleStmt [.p .RightBrace] :=
   roundtrip_stmt_partial _ sampleStmt sampleStmt_wf _ (by simp) (fun _ r h => by cases h) (fun _ => by decide +kernel)
 end Statements
+
+/-! # The text of integer literals -/
+section LiteralText
+open RsslVerif.Lemmas.LiteralText RsslVerif.Model.Lexer RsslVerif.Gen.LexTables
+
+/-- the lexer's integer type of a literal kind of the syntax tree -/
+def intTypeOfKind : LitKind → Option (Option IntType)
+  | .IntUntyped => some none
+  | .IntUnsigned32 => some (some .Unsigned32)
+  | .IntUnsigned64 => some (some .Unsigned64)
+  | .IntSigned64 => some (some .Signed64)
+  | _ => none
+
+/-- the suffix characters `format_literal` appends -/
+def sfxChars : Option IntType → List Char
+  | none => []
+  | some .Unsigned32 => ['u']
+  | some .Unsigned64 => ['u', 'l']
+  | some .Signed64 => ['l']
+
+/-- **literal_roundtrip_int** (beyond `_partial`, for integer literals of every type suffix).  For every non-negative
+integer literal of the four integer kinds whose value fits the kind (`mkIntToken?` = the lexer's range check: `< 2^32`
+for `u`, `< 2^63` for `l`, `< 2^64` otherwise):
+1. the piece the formatter model prints carries the text `digits ++ suffix`, where `digits` are the decimal digits of
+   the value, most significant first without leading zeros (`decMS`; `repr_decMS`: this is what `toString` — standing
+   for Rust's `Display`, which is trusted — produces), and
+2. that text, as bytes, followed by anything that does not continue the literal (`IntFollow`), is accepted by
+   `literal_int` — property C10's model of `preprocess/src/lexer.rs` — and yields exactly the literal token of the same
+   kind and value (`ofDigits_decMS`: the digits denote the value; `int_value_exact` is the converse direction).
+`token_numeric_dispatch` (C10, cited) says `literal_int` is what `token_intermediate` runs when `literal_float` declines. -/
+theorem literal_roundtrip_int (kind : LitKind) (k : Option IntType) (hk : intTypeOfKind kind = some k)
+    (v : Nat) (hv : v < 2 ^ 64) (tok : Token) (hfit : mkIntToken? v k = some tok) :
+    litPieces ⟨kind, false, v⟩ =
+      some [.t (.lit ⟨kind, false, v⟩) (String.ofList ((decMS v).map Nat.digitChar ++ sfxChars k))] ∧
+    (∀ tail, IntFollow tail →
+      literalInt ((((decMS v).map Nat.digitChar ++ sfxChars k).map fun c => UInt8.ofNat c.toNat) ++ tail) = .ok (tail, tok)) ∧
+    (tok = match k with
+      | none => .litInt v
+      | some .Unsigned32 => .litIntU32 v
+      | some .Unsigned64 => .litIntU64 v
+      | some .Signed64 => .litIntS64 (v : Int)) := by
+  have hbytes : ∀ tail, (((decMS v).map Nat.digitChar ++ sfxChars k).map fun c => UInt8.ofNat c.toNat) ++ tail =
+      (decMS v).map digitByte ++ (sfxBytes k ++ tail) := by
+    intro tail
+    rw [List.map_append, digitChars_bytes, List.append_assoc]
+    congr 1
+    cases k with
+    | none => rfl
+    | some k => cases k <;> rfl
+  refine ⟨?_, fun tail hf => ?_, ?_⟩
+  · cases kind <;> simp [intTypeOfKind] at hk <;> subst hk <;>
+      (simp [litPieces, sfxChars, String.ofList_append]; exact repr_decMS v)
+  · rw [hbytes]
+    exact int_text_reads v k tok hv hfit tail hf
+  · cases k with
+    | none => simpa [mkIntToken?] using hfit.symm
+    | some k =>
+      cases k <;> simp only [mkIntToken?] at hfit
+      · split at hfit
+        · simpa using hfit.symm
+        · cases hfit
+      · simpa using hfit.symm
+      · split at hfit
+        · simpa using hfit.symm
+        · cases hfit
+
+/-- non-vacuity: `4294967295u`, `18446744073709551615ul`, `9223372036854775807l`, `0` -/
+example : ∃ tok, mkIntToken? 4294967295 (some .Unsigned32) = some tok ∧
+    literalInt ((((decMS 4294967295).map Nat.digitChar ++ sfxChars (some .Unsigned32)).map fun c => UInt8.ofNat c.toNat) ++ [59]) =
+      .ok ([59], tok) :=
+  ⟨_, rfl, (literal_roundtrip_int .IntUnsigned32 _ rfl 4294967295 (by decide) _ rfl).2.1 [59] ⟨by decide, by decide, by decide, by decide, by decide, by decide⟩⟩
+example : mkIntToken? 18446744073709551615 (some .Unsigned64) = some (.litIntU64 18446744073709551615) := rfl
+example : mkIntToken? (2 ^ 63) (some .Signed64) = none := by decide
+
+end LiteralText
 
 end RsslVerif.Thm.C09
